@@ -4,12 +4,14 @@
 (* and the old entries' weights over all occurrences (checked by TLC on every generated case);       *)
 (* records whose weight count does not match the word length are rejected.                          *)
 EXTENDS VpModel, Json
-CONSTANTS OldSel, NewSel, TextAlpha, MaxText, BadCounts, NoCngSet
-VARIABLES old, new, phase, nocng
+CONSTANTS OldSel, NewSel, TextAlpha, MaxText, BadCounts, NoCngSet, DupSet
+VARIABLES old, new, phase, nocng, dup
 
 ReplaceDict(m, d) == [m EXCEPT !.dict = d]
 
-WPool == << <<97>>, <<12354, 97>>, <<97, 12354, 97>>, <<97, 97>>, <<28450>> >>
+Long9 == <<97, 12354, 97, 97, 12354, 97, 12354, 12354, 97>>                      \* 9 characters: 10 weights (variable-length layout)
+Long12 == <<12354, 97, 97, 12354, 12354, 97, 97, 97, 12354, 97, 12354, 97>>       \* 12 characters: 13 weights
+WPool == << <<97>>, <<12354, 97>>, <<97, 12354, 97>>, <<97, 97>>, <<28450>>, Long9, Long12 >>
 BitSet(mask, j) == (mask \div (2 ^ j)) % 2 = 1
 SelW(mask) == LET ids == {i \in 1..Len(WPool) : BitSet(mask, i - 1)} IN [k \in 1..Cardinality(ids) |-> WPool[SortedSeq(ids)[k]]]
 FP(seed, i, k) == (IF (i + k + seed) % 2 = 0 THEN 1 ELSE -1) * (seed * 1000 + i * 37 + k * 11 + 1)
@@ -20,15 +22,17 @@ Base == [bias |-> -4, cw |-> 2, tw |-> 1,
          tng |-> << [ng |-> <<2>>, w |-> <<-3, 2>>] >>, dict |-> <<>>,
          tags |-> << [token |-> <<97>>, cats |-> << <<<<65>>, <<66>>>> >>, cng |-> <<>>, tng |-> <<>>, bias |-> <<1, 2>>] >>]
 
-Init == old \in OldSel /\ new \in NewSel /\ nocng \in NoCngSet /\ phase = 0
-Next == phase = 0 /\ phase' = 1 /\ UNCHANGED <<old, new, nocng>>
+Init == old \in OldSel /\ new \in NewSel /\ nocng \in NoCngSet /\ dup \in DupSet /\ phase = 0
+Next == phase = 0 /\ phase' = 1 /\ UNCHANGED <<old, new, nocng, dup>>
 
 \* nocng: a model whose ONLY character-level entries are dictionary words (no character n-grams, no tag models)
 Base2 == IF nocng THEN [Base EXCEPT !.cng = <<>>, !.tags = <<>>] ELSE Base
 M0 == ReplaceDict(Base2, DictOf(old, 1))
-NewDict == DictOf(new, 2)
+\* dup: the first record is repeated (same word, same weights, another comment): every record counts
+NewDict == LET d == DictOf(new, 2) IN
+           IF dup /\ Len(d) >= 1 THEN <<d[1], [d[1] EXCEPT !.c = <<100, 117, 112>>]>> \o SubSeq(d, 2, Len(d)) ELSE d
 M1 == ReplaceDict(M0, NewDict)
-Texts == SetToSeq(SeqsOf(TextAlpha, 1, MaxText))
+Texts == SetToSeq(SeqsOf(TextAlpha, 1, MaxText) \cup {<<28450>> \o Long9 \o <<97>>, Long12, <<97>> \o Long12 \o Long9})
 DictSum(d, text, b) == SumSeq([i \in 1..Len(d) |-> DictContrib(d[i], text, b)])
 \* the documented effect of the edit
 DiffLaw == phase = 1 => \A i \in 1..Len(Texts) : \A b \in 1..(Len(Texts[i]) - 1) :
